@@ -459,7 +459,7 @@ class Inliner:
                 # cannot leak over a local of the function, as a comprehension variable cannot)
                 comp = st.value
                 g = comp.generators[0]
-                calls_helper = any(isinstance(x, ast.Call) and self._resolve_in(cx, x, stack) is not None for x in ast.walk(comp.elt))
+                calls_helper = self._calls_helper(cx, comp.elt, stack)
                 tnames = [x.id for x in ast.walk(g.target) if isinstance(x, ast.Name)]
                 if calls_helper and tnames and st.targets[0].id not in tnames:
                     self.counter += 1
@@ -507,6 +507,23 @@ class Inliner:
             return hoisted + [st]
         except _NoInline:
             return [st]
+
+    def _reduce_target(self, cx: "_Ctx", x: ast.AST, stack: tuple[str, ...]):
+        """F when `x` is functools.reduce(F, xs, init) with F a helper that can be spliced (called as F(acc, item))"""
+        if isinstance(x, ast.Call) and len(x.args) == 3 and not x.keywords and isinstance(x.args[0], ast.Name) \
+                and (x.func.id if isinstance(x.func, ast.Name) else getattr(x.func, "attr", "")) == "reduce":
+            fake = ast.Call(func=ast.Name(id=x.args[0].id, ctx=ast.Load()), args=[ast.Name(id="__a", ctx=ast.Load()), ast.Name(id="__b", ctx=ast.Load())], keywords=[])
+            ast.copy_location(fake, x)
+            ast.fix_missing_locations(fake)
+            try:
+                if self._resolve_in(cx, fake, stack) is not None:
+                    return x.args[0].id
+            except Exception:  # noqa: BLE001
+                return None
+        return None
+
+    def _calls_helper(self, cx: "_Ctx", e: ast.AST, stack: tuple[str, ...]) -> bool:
+        return any(isinstance(y, ast.Call) and (self._resolve_in(cx, y, stack) is not None or self._reduce_target(cx, y, stack) is not None) for y in ast.walk(e))
 
     def _splice_context_manager(self, cx: "_Ctx", st: ast.With, stack: tuple[str, ...], depth: int) -> list[ast.stmt] | None:
         import dataclasses
@@ -585,7 +602,7 @@ class Inliner:
 
         def go(x: ast.AST, conditional: bool) -> ast.AST:
             if isinstance(x, ast.ListComp) and not conditional and len(x.generators) == 1 and not x.generators[0].is_async \
-                    and any(isinstance(y, ast.Call) and self._resolve_in(cx, y, stack) is not None for y in ast.walk(x.elt)):
+                    and self._calls_helper(cx, x.elt, stack):
                 # sep.join([helper(i, s) for i, s in enumerate(xs)]): the list is built first, as a loop the helper can be spliced into
                 self.counter += 1
                 acc = f"__r{self.counter}"
@@ -608,6 +625,23 @@ class Inliner:
                     setattr(x, fld, go(val, conditional))
                 elif isinstance(val, list):
                     setattr(x, fld, [go(v, conditional) if isinstance(v, ast.AST) else v for v in val])
+            if isinstance(x, ast.Call) and not conditional and self._reduce_target(cx, x, stack) is not None:
+                # reduce(step, xs, init)   ->   acc = init; for item in xs: acc = step(acc, item)
+                fname = self._reduce_target(cx, x, stack)
+                self.counter += 1
+                acc = f"__r{self.counter}"
+                item = f"__r{self.counter}_item"
+                init_ = ast.Assign(targets=[ast.Name(id=acc, ctx=ast.Store())], value=x.args[2], type_comment=None)
+                step = ast.Assign(targets=[ast.Name(id=acc, ctx=ast.Store())],
+                                  value=ast.Call(func=ast.Name(id=fname, ctx=ast.Load()), args=[ast.Name(id=acc, ctx=ast.Load()), ast.Name(id=item, ctx=ast.Load())], keywords=[]),
+                                  type_comment=None)
+                loop = ast.For(target=ast.Name(id=item, ctx=ast.Store()), iter=x.args[1], body=[step], orelse=[], type_comment=None)
+                for n_ in (init_, loop):
+                    ast.copy_location(n_, x)
+                    ast.fix_missing_locations(n_)
+                pre.append(init_)
+                pre.extend(self._stmt(cx, loop, stack, depth))
+                return ast.copy_location(ast.Name(id=acc, ctx=ast.Load()), x)
             if isinstance(x, ast.Call) and not conditional and isinstance(x.func, ast.Attribute) and x.func.attr == "join" \
                     and isinstance(x.func.value, (ast.Constant, ast.Name)) and len(x.args) == 1 and not x.keywords and isinstance(x.args[0], ast.Call):
                 # sep.join(gen(...)): join drains the generator completely before it builds the string
